@@ -101,8 +101,9 @@ def ob_normal_eq(tomo, sysname, m, flag, over):
         f = [I[f"f{i}"] for i in range(nf)]
         g = [I[f"f{i}"] * 0.5 + 0.25 for i in range(nf)]       # a second, different dataset (affine image of the first)
         est = LinearEstimator()
-        d1 = [as_dist(ps, 10) for ps in split(f, sizes)]
-        d2 = [as_dist(ps, 1000) for ps in split(g, sizes)]
+        # sample counts differ from schedule to schedule: the linear estimate does not depend on them
+        d1 = [as_dist(ps, 10 + 7 * j) for j, ps in enumerate(split(f, sizes))]
+        d2 = [as_dist(ps, 1000 - 90 * j) for j, ps in enumerate(split(g, sizes))]
         rs = est.calc_estimate_sequence(qt, [d1, d2, d1])
         r1 = est.calc_estimate(qt, d1)
         r2 = est.calc_estimate(qt, d2)
